@@ -448,3 +448,106 @@ def _is_spec_axiom(f):
 
 def _safe(s):
     return "".join(ch if ch.isalnum() or ch in "-_.#@" else "_" for ch in s)[:180]
+
+
+
+def verify_lemma(eng, c, prop):
+    """A lemma over specification functions, proved by well-founded induction over the finite, acyclic object graph.
+
+        @lemma(props=[..])
+        class L:
+            def requires(a, b): ...          # domain
+            def claim(a, b): ...             # the statement
+            induction = ("a", "b")           # hypothesis: the claim for every pair of STRICTLY SMALLER objects
+            components = ("_statements", ..) # fields whose values are components (smaller than their owner)
+
+    Verification condition: requires(a,b) and (forall x,y. rank(x) < rank(a) and rank(y) < rank(b) and requires(x,y) ==>
+    claim(x,y)) ==> claim(a,b), where rank is an uninterpreted measure of which only "a component is smaller than the
+    object that holds it" is assumed (fields listed in `components`, elements of lists / tuples, values of dicts) - the
+    global assumption that IR object graphs are finite and acyclic, i.e. that such a measure exists."""
+    rep = FunctionReport("lemma:" + c.name, c.name)
+    t0 = time.time()
+    path = eng.cs.files.get(c.module)
+    rep.file = os.path.relpath(path, os.path.dirname(os.path.dirname(os.path.abspath(__file__)))) if path else None
+    rep.lines = [c.node.lineno, c.node.end_lineno]
+    import hashlib
+    rep.ast_hash = hashlib.sha256(ast.dump(c.node).encode()).hexdigest()[:16]
+    rep.file_sha256 = hashlib.sha256(open(path, "rb").read()).hexdigest() if path else None
+    rep.self_cls = None
+    try:
+        run = Run(eng, [])
+        run.deadline = t0 + FUNC_BUDGET_S
+        eng.run = run
+        run.fkey = f"{prop}/lemma:{c.name}"
+        run.prop = prop
+        run.verifying_key = rep.key
+        run.own_contract = c
+        claim = c.methods.get("claim")
+        req = c.requires()
+        if claim is None:
+            raise Unsupported("lemma without claim")
+        names = [a.arg for a in claim.args.args]
+        params = {n: TV(z3.Const(f"p_{n}", S.Val)) for n in names}
+        run.root_bindings = dict(params)
+        run.mod_bound = params
+        if req is not None:
+            run.assume(eng.eval_clause(c, req, params).truth())
+        if not run.quick_feasible(z3.BoolVal(True)):
+            raise Unsupported("precondition unsatisfiable (vacuous lemma)")
+        ind = c.attrs.get("induction") or ()
+        if isinstance(ind, str):
+            ind = (ind,)
+        if ind:
+            rank = z3.Function("ih_rank", S.Val, z3.IntSort())
+            smaller = {n: (TV(z3.Const(f"ih_{n}", S.Val)) if n in ind else params[n]) for n in names}
+            conds = [rank(smaller[n].t) < rank(params[n].t) for n in ind]
+            pre = eng.eval_clause(c, req, smaller).truth() if req is not None else z3.BoolVal(True)
+            cl = eng.eval_clause(c, claim, smaller).truth()
+            trig = c.methods.get("trigger")
+            pats = None
+            if trig is not None:
+                tv = eng.eval_clause(c, trig, smaller)
+                pats = [eng.to_tv(tv).truth() if eng.to_tv(tv).sort == "bool" else eng.to_tv(tv).val()]
+            vs = [smaller[n].t for n in ind]
+            body = z3.Implies(z3.And(conds + [pre]), cl)
+            try:
+                run.assume(z3.ForAll(vs, body, patterns=pats) if pats else z3.ForAll(vs, body))
+            except z3.Z3Exception:
+                run.assume(z3.ForAll(vs, body))
+            # "a component is smaller than what holds it"
+            o = z3.Const("ih_o", S.Val)
+            k = z3.Int("ih_k")
+            comps = c.attrs.get("components") or ()
+            if isinstance(comps, str):
+                comps = (comps,)
+            for f in comps:
+                ft = S.fld(f)(o)
+                run.assume(z3.ForAll([o], z3.Implies(S.is_VObj(o), rank(ft) < rank(o)), patterns=[ft]))
+            run.assume(z3.ForAll([o, k], rank(S.seq_nth(o, k)) < rank(o), patterns=[S.seq_nth(o, k)]))
+            run.assume(z3.ForAll([o], rank(S.dict_vals(o)) < rank(o), patterns=[S.dict_vals(o)]))
+            run.assumptions_used.add("lemma by induction: a measure exists under which every component (listed fields, list / tuple "
+                                     "elements, dict values) is smaller than the object holding it - IR object graphs are finite and acyclic")
+        goal = eng.eval_clause(c, claim, params).truth()
+        run.obligation("lemma", goal, claim, name=c.name)
+        for o_ in run.obligations:
+            o_._keep = (run,)
+            rep.obligations.append(o_)
+        rep.canary = Obligation(f"{run.fkey}/canary", "canary", run.facts, z3.BoolVal(False))
+        rep.canary._keep = (run,)
+        rep.assumptions |= run.assumptions_used
+        rep.runs = rep.paths = 1
+    except Unsupported as ex:
+        rep.status = "unsupported"
+        rep.reason = str(ex)
+        if os.environ.get("PYVC_DEBUG"):
+            traceback.print_exc()
+    except Exception as ex:
+        rep.status = "unsupported"
+        rep.reason = f"internal error {type(ex).__name__}: {str(ex)[:200]}"
+        if os.environ.get("PYVC_DEBUG"):
+            traceback.print_exc()
+    for o_ in rep.obligations:
+        o_.base_id = o_.id
+        o_.id = f"{o_.id}@p0"
+    rep.time = time.time() - t0
+    return rep
